@@ -10,10 +10,15 @@
      - the other half: the wrapped interaction / neighbour lists inside the box deliver each image of the 3^d adjacent
        copies exactly once (partition theorem on unwrapped coordinates, distinct offset codes per list, every entry is an
        image in range, exactly one of o / -o in the upper half), and the reported cube is the disjoint union of the two parts.
-   Not proved: ONE statement about the values in [rhs] composing the two halves through the free kernel (the run-time tie is
-   the image-aware kernel of checks/c10.py, and the C02/C08 refinement theorems hold for per = true). *)
+     - MAIN (Spec/ExactlyOncePer.v, end of this file): the two halves composed through an image-aware free kernel: after the
+       documented four-step periodic sequence every particle holds EXACTLY ONE contribution from every image (q, sigma) with
+       sigma in the reported repetition cube, none from itself in the central box, nothing else - for every dimension, height
+       >= 2, block size, grouping mode, k >= -1, every tree satisfying the invariant (in particular every tree the constructor
+       builds).  The semantics of the calls on images ([pstep]: M2L / P2P displace by img_shift = floor((t + o) / 2^l), the top
+       tree by [tstep]) is what the image-aware TraceKernel of the harness implements on the real positions; the call sequence
+       itself is compared with the C++ on every run. *)
 From Tbfmm Require Import Base.Prelude Index.MortonDefs Index.ListsDefs Tree.GroupDefs Tree.BuildDefs Exec.ExecDefs Exec.ExecPeriodicDefs
-  Index.ListsSpec Spec.TopTree Spec.GeometryPer.
+  Index.ListsSpec Tree.Invariant Spec.TopTree Spec.GeometryPer Spec.ExactlyOncePer Exec.ImageDefs.
 From Coq Require Import Permutation.
 Local Open Scope Z_scope.
 
@@ -111,3 +116,38 @@ Print Assumptions C10_repetition_cube_split.
 
 Example C10_no_extra_level : repetition_interval (-1) = (-1, 1).
 Proof. reflexivity. Qed.
+
+(* ---- MAIN: the periodic run end to end ---- *)
+Theorem C10_periodic_exactly_once : forall d H B mode k t idx, (0 < d)%nat -> 2 <= H -> -1 <= k ->
+  tree_ok (parent d) H B mode t -> particles_ok idx t -> Forall (fun i => 0 <= i < 2 ^ ((H - 1) * dz d)) idx -> idx <> [] ->
+  let st := prun d k (H - 1) (periodic_run d k 1 t) pst0 in
+  let (lo, hi) := repetition_interval k in
+  forall p q sigma, 0 <= p < zlen idx ->
+    count_occ ival_eq_dec (p_rhs st p) (q, sigma)
+    = if (0 <=? q) && (q <? zlen idx) && (Nat.eqb (length sigma) d) && forallb (fun x => (lo <=? x) && (x <=? hi)) sigma
+         && negb ((q =? p) && forallb (Z.eqb 0) sigma) then 1%nat else 0%nat.
+Proof. exact periodic_exactly_once. Qed.
+Print Assumptions C10_periodic_exactly_once.
+
+(* ... in particular for the tree the constructor builds from any particle set *)
+Theorem C10_periodic_exactly_once_build : forall d H B mode k idx, (0 < d)%nat -> 2 <= H -> 1 <= B -> -1 <= k ->
+  idx <> [] -> Forall (fun i => 0 <= i < 2 ^ ((H - 1) * dz d)) idx ->
+  let t := build (parent d) H B mode idx in
+  let st := prun d k (H - 1) (periodic_run d k 1 t) pst0 in
+  let (lo, hi) := repetition_interval k in
+  forall p q sigma, 0 <= p < zlen idx ->
+    count_occ ival_eq_dec (p_rhs st p) (q, sigma) = expected d (zlen idx) lo hi p q sigma.
+Proof. exact periodic_exactly_once_build. Qed.
+Print Assumptions C10_periodic_exactly_once_build.
+
+(* non-vacuity: d = 2, H = 3, k = 1, five particles: particle 0 holds 5 * 12^2 - 1 = 719 contributions *)
+Example C10_periodic_nonvacuous :
+  let idx := [0; 5; 5; 15; 9] in
+  let t := build (parent 2) 3 2 false idx in
+  length (p_rhs (prun 2 1 2 (periodic_run 2 1 1 t) pst0) 0) = 719%nat.
+Proof. vm_compute. reflexivity. Qed.
+
+(* the image shift of the theorem is the executable [image_shift] that is compared with TbfPeriodicShifter at run time *)
+Theorem C10_image_shift_is_img_shift : forall d l t o, image_shift d l t o = img_shift d l t o.
+Proof. reflexivity. Qed.
+Print Assumptions C10_image_shift_is_img_shift.
